@@ -19,10 +19,28 @@ fn roundtrip_seq<C: CI>(ctx: &mut Ctx, s: &Seq<C>, m: &[u8], prov: &str) {
         check!(ctx, false, format!("provenance|{name}|{prov}|harness-or-library"), "{what}: the value to serialize does not hold the model symbols");
         return;
     }
-    for fmt in ["bincode", "json"] {
+    for fmt in ["bincode", "json", "bincode-reader", "json-reader", "json-value", "json-slice"] {
         ctx.eval();
         let r: Result<Result<(Seq<C>, usize, bool), String>, String> = observe(|| {
-            if fmt == "bincode" {
+            if fmt == "bincode-reader" {
+                // through io::Read / io::Write instead of in-memory buffers
+                let mut buf: Vec<u8> = Vec::new();
+                bincode::serialize_into(&mut buf, s).map_err(|e| format!("serialize_into: {e}"))?;
+                let d: Seq<C> = bincode::deserialize_from(&buf[..]).map_err(|e| format!("deserialize_from: {e}"))?;
+                Ok((d, buf.len(), true))
+            } else if fmt == "json-reader" {
+                let text = serde_json::to_vec(s).map_err(|e| format!("to_vec: {e}"))?;
+                let d: Seq<C> = serde_json::from_reader(&text[..]).map_err(|e| format!("from_reader: {e}"))?;
+                Ok((d, text.len(), true))
+            } else if fmt == "json-value" {
+                let v = serde_json::to_value(s).map_err(|e| format!("to_value: {e}"))?;
+                let d: Seq<C> = serde_json::from_value(v).map_err(|e| format!("from_value: {e}"))?;
+                Ok((d, 0, true))
+            } else if fmt == "json-slice" {
+                let text = serde_json::to_vec_pretty(s).map_err(|e| format!("to_vec_pretty: {e}"))?;
+                let d: Seq<C> = serde_json::from_slice(&text).map_err(|e| format!("from_slice: {e}"))?;
+                Ok((d, text.len(), true))
+            } else if fmt == "bincode" {
                 let bytes = bincode::serialize(s).map_err(|e| format!("serialize: {e}"))?;
                 let d: Seq<C> = bincode::deserialize(&bytes).map_err(|e| format!("deserialize: {e}"))?;
                 let again = bincode::serialize(&d).map_err(|e| format!("re-serialize: {e}"))?;
@@ -126,7 +144,23 @@ fn seqs<C: CI>(ctx: &mut Ctx) {
                 let owned_bv: BitVec<usize, Lsb0> = bv[h..].to_bitvec();
                 roundtrip_seq::<C>(ctx, &Seq::<C>::from(owned_bv), &m, "from-bitvec");
             }
-            ctx.sample(|| json!({"codec": name, "len": n, "provenances": ["parsed", "collected", "sliced-and-copied", "reversed", "with_capacity", "truncated", "removed-prefix", "inserted+prepended", "from-bitslice-with-head {1,BITS,7,13,31,63}", "clone-of-headed", "from-bitvec"], "formats": ["bincode", "json"]}));
+            // sequences holding documented ALTERNATIVE codes (only reachable through from_raw): the value to
+            // preserve is the bit content; symbols decode through the alternatives
+            let alts: Vec<(u8, u8)> = a.syms.iter().flat_map(|sy| sy.alt_codes.iter().map(move |c| (*c, sy.code))).collect();
+            if !alts.is_empty() && n > 0 {
+                let raw_codes: Vec<u8> = (0..n).map(|i| if i % 2 == 0 { alts[(i / 2 + li) % alts.len()].0 } else { m[i] }).collect();
+                let words: Vec<usize> = model::pack_words(a.bits, &raw_codes).iter().map(|w| *w as usize).collect();
+                if let Some(sq) = Seq::<C>::from_raw(n, &words) {
+                    let canon: Vec<u8> = raw_codes.iter().map(|c| a.canon(*c).unwrap()).collect();
+                    let before = model::live_bits(sq.into_raw(), n * bits);
+                    roundtrip_seq::<C>(ctx, &sq, &canon, "from_raw-with-alternative-codes");
+                    for fmt in ["bincode", "json"] {
+                        let d: Option<Seq<C>> = if fmt == "bincode" { bincode::serialize(&sq).ok().and_then(|b| bincode::deserialize(&b).ok()) } else { serde_json::to_string(&sq).ok().and_then(|t| serde_json::from_str(&t).ok()) };
+                        check!(ctx, d.as_ref().map(|d| model::live_bits(d.into_raw(), n * bits)) == Some(before.clone()), format!("seq-roundtrip|{name}|{fmt}|alternative-codes-not-preserved"), "{name}: a sequence holding alternative codes does not come back bit-identical through {fmt}");
+                    }
+                }
+            }
+            ctx.sample(|| json!({"codec": name, "len": n, "provenances": ["parsed", "collected", "sliced-and-copied", "reversed", "with_capacity", "truncated", "removed-prefix", "inserted+prepended", "from-bitslice-with-head {1,BITS,7,13,31,63}", "clone-of-headed", "from-bitvec"], "formats": ["bincode (slice and io::Read/Write)", "serde_json (str, slice, reader, Value)"]}));
         }
     });
 }
@@ -190,7 +224,7 @@ fn main() {
             for_each_k64!(kmer_case, u64, ctx);
             for_each_k128!(kmer_case, ctx);
         }
-        ctx.note("rule", json!("owned sequences of all 7 codecs at every length class (0..3 words) with 11 provenances: parsed, collected, sliced-and-copied from an offset, reversed, with spare capacity, truncated, prefix removed, inserted+prepended, and — for non-zero internal heads — Seq::from(&bits[h..]) for h in {1,BITS,7,13,31,63}, its clone and Seq::from(BitVec); every (codec,K,storage) k-mer with all-max, all-min and random contents (u128 values above u64::MAX included); bincode and serde_json: == both ways, length, symbols against the model, recorded hash stream, display. The hook records which internal (head, capacity) layouts were serialized. Distinct = (codec, provenance, content, head) / (codec,K,S,content)."));
+        ctx.note("rule", json!("owned sequences of all 7 codecs at every length class (0..3 words) with 11 provenances: parsed, collected, sliced-and-copied from an offset, reversed, with spare capacity, truncated, prefix removed, inserted+prepended, and — for non-zero internal heads — Seq::from(&bits[h..]) for h in {1,BITS,7,13,31,63}, its clone and Seq::from(BitVec), and sequences holding documented alternative codes built with from_raw (amino, masked dna); every (codec,K,storage) k-mer with all-max, all-min and random contents (u128 values above u64::MAX included); bincode (serialize/deserialize and serialize_into/deserialize_from) and serde_json (to_string/from_str, to_vec/from_reader, to_value/from_value, to_vec_pretty/from_slice): == both ways, length, symbols against the model, recorded hash stream, display. The hook records which internal (head, capacity) layouts were serialized. Distinct = (codec, provenance, content, head) / (codec,K,S,content)."));
         ctx.note("assumptions", json!(["byte-identical re-serialization is recorded as an observation, not demanded (the property asks for equality of values)"]));
     });
 }
